@@ -20,6 +20,9 @@ for pid in only:
             print(rows[-1], flush=True)
             try:
                 ev = json.load(open(os.path.join(V, "evidence", pid + ".json")))
+                if p.returncode == 0 and ev.get("tier") == tier and ev.get("seed") == seed and os.environ.get("SWEEP_KEEP"):
+                    os.makedirs(os.environ["SWEEP_KEEP"], exist_ok=True)     # maintenance: keep a copy of what this very run wrote
+                    json.dump(ev, open(os.path.join(os.environ["SWEEP_KEEP"], "%s_%s_%d.json" % (pid, tier, seed)), "w"), indent=1, sort_keys=True)
                 for s in ev["coverage"].get("known_findings_seen", []):
                     seen.setdefault(pid, set()).add(s)
             except Exception as e:
